@@ -2,6 +2,7 @@
 import SwV.Common.Drv
 import SwV.Model.C18
 import SwV.Spec.C18Run
+import SwV.Spec.C18
 open SwV.Drv SwV.Model.C18 SwV.Spec.C18Run
 
-def main : IO Unit := run { init := ({} : St), step := drvStep (fun _ _ _ => []) }
+def main : IO Unit := run { init := ({} : St), step := drvStep SwV.Spec.C18.judge }
